@@ -6,16 +6,23 @@ package main
 // not_applicable ("not claimed yet") and can still be run by hand.
 var claimed = map[string]bool{
 	"C01": true,
+	"C02": true,
 	"C03": true,
 	"C04": true,
 	"C05": true,
 	"C06": true,
+	"C07": true,
+	"C08": true,
 	"C09": true,
 	"C10": true,
+	"C11": true,
+	"C12": true,
 	"C13": true,
+	"C14": true,
 	"C15": true,
 	"C16": true,
 	"C17": true,
 	"C18": true,
 	"C19": true,
+	"C20": true,
 }
